@@ -267,15 +267,15 @@ The theorems above are about the Model run with tolerance 0; the code (and the d
 (all dyadic inputs of the correspondence run: `D = 2^k`, `k ≤ 26` for `tol = 1e-8`) `+=` only
 deletes exact zeros, and both runs return the same coefficients. -/
 
-/-- fermions and bosons: same coefficient for every term. -/
+/-- same coefficient for every term, whatever the tolerance (`tol·D ≤ 1`). -/
 theorem normal_ordered_exact_regime (D : Nat) (hD : 0 < D) (tol : Rat) (h0 : 0 ≤ tol) (h1 : tol * D ≤ 1)
-    (k : Kind) (hk : k.isFermion = true ∨ k.cls = .boson) (a : Op) (la : ∀ e ∈ a, Lat D e.2) :
+    (k : Kind) (hk : LatticeKind k) (a : Op) (la : ∀ e ∈ a, Lat D e.2) :
     ∀ t, Dict.getD (normalOrdered tol k a) t 0 = Dict.getD (normalOrdered 0 k a) t 0 := by
   have hkk : ∀ c, Lat D c → Lat D (k.swapCoeff c) ∧ Lat D (k.contractCoeff c) := by
     cases k with
     | fermion => exact hk_fermion D
     | boson => exact hk_boson D
-    | quad h => rcases hk with h' | h' <;> simp [Kind.isFermion, Kind.cls] at h'
+    | quad h => exact hk_quad D h hk
   have hmk : ∀ t c, Lat D c → Lat D (c * (simplify k.cls t).1) := by
     intro t c hc
     cases k <;> exact lat_mul_one D c hc
@@ -287,7 +287,7 @@ theorem normal_ordered_sound_melF_tol (D : Nat) (hD : 0 < D) (tol : Rat) (h0 : 0
     Spec.melF (normalOrdered tol .fermion a) out s = Spec.melF a out s := by
   rw [← normal_ordered_sound_melF a hv out s]
   exact melF_congr _ _ (wf_normalOrdered tol .fermion a) (wf_normalOrdered 0 .fermion a)
-    (normal_ordered_exact_regime D hD tol h0 h1 .fermion (Or.inl rfl) a la) out s
+    (normal_ordered_exact_regime D hD tol h0 h1 .fermion trivial a la) out s
 
 -- non-vacuity: the extracted EQ_TOLERANCE admits the dyadic lattice 2^-26
 example : (0 : Rat) ≤ Generated.eqTolerance ∧ Generated.eqTolerance * ((2 ^ 26 : Nat) : Rat) ≤ 1 := by
